@@ -225,3 +225,4 @@ def check(ctx):
     shared.io_timeout_direction_rules(ctx)
     ctx.import_rules("C17", r"^fwd/|^del-io-timer/|^co-io-result/")
     shared.selector_serves_timeout_wakeups(ctx)
+    ctx.import_rules("C17", r"^drop-order/")
